@@ -5,10 +5,10 @@
 
 use crate::query::plan::{
     AggregateExpr, AggregateFunction, AggregateOp, BinaryOp, CreateEdgeOp, CreateNodeOp,
-    DeleteNodeOp, DistinctOp, ExpandDirection, ExpandOp, FilterOp, LeftJoinOp, LimitOp,
-    LogicalExpression, LogicalOperator, LogicalPlan, MergeOp, NodeScanOp, ProjectOp, Projection,
-    RemoveLabelOp, ReturnItem, ReturnOp, SetPropertyOp, ShortestPathOp, SkipOp, SortKey, SortOp,
-    SortOrder, UnaryOp, UnwindOp,
+    DeleteEdgeOp, DeleteNodeOp, DistinctOp, ExpandDirection, ExpandOp, FilterOp, LeftJoinOp,
+    LimitOp, LogicalExpression, LogicalOperator, LogicalPlan, MergeOp, NodeScanOp, ProjectOp,
+    Projection, RemoveLabelOp, ReturnItem, ReturnOp, SetPropertyOp, ShortestPathOp, SkipOp,
+    SortKey, SortOp, SortOrder, UnaryOp, UnwindOp,
 };
 use grafeo_adapters::query::cypher::{self, ast};
 use grafeo_common::types::Value;
@@ -988,12 +988,19 @@ impl CypherTranslator {
         // Delete each expression (typically variables)
         for expr in &delete_clause.expressions {
             if let ast::Expression::Variable(var) = expr {
-                // Check if it's a node or edge - for simplicity, try node first
-                plan = LogicalOperator::DeleteNode(DeleteNodeOp {
-                    variable: var.clone(),
-                    detach: delete_clause.detach,
-                    input: Box::new(plan),
-                });
+                // A relationship variable deletes that relationship, anything else a node
+                plan = if plan.binds_edge_variable(var) {
+                    LogicalOperator::DeleteEdge(DeleteEdgeOp {
+                        variable: var.clone(),
+                        input: Box::new(plan),
+                    })
+                } else {
+                    LogicalOperator::DeleteNode(DeleteNodeOp {
+                        variable: var.clone(),
+                        detach: delete_clause.detach,
+                        input: Box::new(plan),
+                    })
+                };
             } else {
                 return Err(Error::Internal(
                     "DELETE only supports variable expressions".into(),
